@@ -443,6 +443,7 @@ def main(argv):
     known = load_known()
     violations, undecided, notes, known_hits = [], [], [], []
     n_clauses = n_fns = n_vac = n_lemmas = 0
+    carrier_fails = []
     fn_under_contract, trusted, samples, rules_fired = [], [], [], {}
     smt_ms = 0
     for r in results:
@@ -508,6 +509,11 @@ def main(argv):
             if unchanged and not fl.get("_census"):
                 undecided.append(f"[{r['unit']}] {fl['function']}/{fl['clause'] or 'body'} failed although every extracted item and the unit files equal the committed baseline: solver instability (seed {seed}), not a violation")
                 continue
+            if fl["strength"] == "carrier":
+                # the clause says `result == spec_function(..)`; the property itself is a set of lemmas over that spec function.
+                # Its failure alone shows the function changed, not that the property broke: the paired check decides.
+                carrier_fails.append(fl)
+                continue
             if fl["strength"] == "beyond-property":
                 notes.append(f"[{r['unit']}] clause {fl['function']}/{fl['clause']} (stronger than the property: exactness) no longer holds")
                 fl["_beyond"] = True
@@ -547,6 +553,12 @@ def main(argv):
             fl["unit"] = kr["unit"]
             violations.append(fl)
 
+    for fl in carrier_fails:
+        if violations:
+            notes.append(f"[{fl['unit']}] {fl['function']}/{fl['clause']}: the function no longer equals its specification function (see the violation found by the paired check)")
+        else:
+            undecided.append(f"[{fl['unit']}] {fl['function']}/{fl['clause']}: the function no longer computes its specification function, so the lemmas that derive the property from that function no longer speak about the code; "
+                             "the paired bounded check found no failing input -> undecided (re-establish the specification function and its lemmas), not a violation")
     for k in known_hits:
         log(f"KNOWN-FINDING: property={prop} {k['unit']}/{k['function']}/{k['clause']} {k['what']}")
     for n in sorted(set(notes)):
